@@ -16,6 +16,8 @@ enum Shape {
     Capsule { sec: u32, body: u32, cap: u32, r: f32 },
     /// open polyline profile (k-th of a table), partial azimuth range in 1/8 turns
     Lathe { profile: u32, sec: u32, az0: i32, az1: i32, capped: bool },
+    /// the same, built as a struct literal instead of through Lathe::new()
+    LatheLit { profile: u32, sec: u32, az0: i32, az1: i32, capped: bool },
 }
 
 fn profiles(k: u32) -> Vec<(f32, f32, f32, f32)> {
@@ -45,6 +47,10 @@ fn build(s: &Shape) -> Mesh<Normal3> {
             l.az_range = turns(az0 as f32 / 8.0)..turns(az1 as f32 / 8.0);
             l.build()
         }
+        Shape::LatheLit { profile, sec, az0, az1, capped } => {
+            let points = profiles(profile).into_iter().map(|(x, y, nx, ny)| vertex(pt2(x, y), vec2(nx, ny))).collect();
+            Lathe { points, sectors: sec, capped, az_range: turns(az0 as f32 / 8.0)..turns(az1 as f32 / 8.0) }.build()
+        }
     }
 }
 
@@ -63,7 +69,7 @@ fn outward(s: &Shape, p: V3) -> Option<V3> {
         Shape::Torus { .. } => None,
         // convex solids of revolution around the y axis, centred at the origin
         Shape::Cone { .. } | Shape::Cyl { .. } | Shape::Capsule { .. } => Some(p),
-        Shape::Lathe { .. } => None,
+        Shape::Lathe { .. } | Shape::LatheLit { .. } => None,
     }
 }
 
@@ -78,7 +84,7 @@ fn on_surface(s: &Shape, p: V3) -> Option<f64> {
         Shape::Cyl { r, .. } => Some(((rad - r as f64).abs() / r as f64).max((p[1].abs() - 1.0).max(0.0))),
         Shape::Cone { rb, ra, .. } => { let t = (p[1] + 1.0) / 2.0; let r = rb as f64 + (ra as f64 - rb as f64) * t; Some((rad - r).abs() / (rb.max(ra) as f64).max(1e-9)).map(|e| e.max((p[1].abs() - 1.0).max(0.0))) }
         Shape::Capsule { r, .. } => { let y = p[1].clamp(-1.0, 1.0); Some((((p[1] - y).powi(2) + rad * rad).sqrt() - r as f64).abs() / r as f64) }
-        Shape::Lathe { .. } => None,
+        Shape::Lathe { .. } | Shape::LatheLit { .. } => None,
     }
 }
 
@@ -88,7 +94,7 @@ fn closed(s: &Shape) -> Option<i64> {
         Shape::Tetra | Shape::Octa | Shape::Dodeca | Shape::Icosa | Shape::Box3 { .. } | Shape::Sphere { .. } | Shape::Capsule { .. } => Some(2),
         Shape::Torus { .. } => Some(0),
         Shape::Cone { capped, .. } | Shape::Cyl { capped, .. } => if capped { Some(2) } else { None },
-        Shape::Lathe { capped, az0, az1, .. } => if capped && az1 - az0 == 8 { Some(2) } else { None },
+        Shape::Lathe { capped, az0, az1, .. } | Shape::LatheLit { capped, az0, az1, .. } => if capped && az1 - az0 == 8 { Some(2) } else { None },
     }
 }
 
@@ -217,14 +223,16 @@ fn shapes(quick: bool) -> Vec<Shape> {
     let (mb, mc) = if quick { (4, 4) } else { (8, 8) };
     for sec in 3..=msec { for body in 1..=mb { for cap in 1..=mc { for r in radii { v.push(Shape::Capsule { sec, body, cap, r }); } } } }
     // magnitude sentinels: very small and very large radii on a thinned set of counts
-    for r in [1e-4f32, 1e-3, 0.02, 100.0, 1e4] { for sec in [3u32, 7, 16] { for seg in [2u32, 5] {
+    for r in [1e-7f32, 1e-6, 1e-5, 1e-4, 1e-3, 0.02, 100.0, 1e4] { for sec in [3u32, 7, 16] { for seg in [2u32, 5] {
         v.push(Shape::Sphere { sec, seg, r });
+        v.push(Shape::Torus { maj: sec.max(3), min: seg + 2, rmaj: r * 4.0, rmin: r });
+        // (the other generators span y = -1..1 whatever the radius: below 1e-4 a ring is no longer resolved by f32 at that extent)
+        if r < 1e-4 { continue; }
         v.push(Shape::Cyl { sec, seg, capped: true, r });
         v.push(Shape::Cyl { sec, seg, capped: false, r });
         v.push(Shape::Capsule { sec, body: seg, cap: 3, r });
         v.push(Shape::Cone { sec, seg, capped: true, rb: r, ra: 0.0 });
         v.push(Shape::Cone { sec, seg, capped: true, rb: r, ra: r * 0.5 });
-        v.push(Shape::Torus { maj: sec.max(3), min: seg + 2, rmaj: r * 4.0, rmin: r });
         if r < 1.0 { v.push(Shape::Torus { maj: sec.max(3), min: seg + 2, rmaj: 1.0, rmin: r }); }
     }}}
     // scale sentinels: counts around 255/256/257 and a dense sphere
@@ -239,6 +247,7 @@ fn shapes(quick: bool) -> Vec<Shape> {
     v.push(Shape::Cone { sec: 5, seg: 300, capped: true, rb: 1.0, ra: 0.5 });
     for profile in 0..3 { for sec in 3..=msec.min(12) { for (az0, az1) in [(0, 8), (0, 4), (0, 2), (1, 3), (-2, 5), (0, 7), (3, 6), (4, 8), (5, 13), (-4, -1)] { for capped in [false, true] {
         v.push(Shape::Lathe { profile, sec, az0, az1, capped });
+        if sec % 3 == 0 { v.push(Shape::LatheLit { profile, sec, az0, az1, capped }); }
     }}}}
     v
 }
@@ -261,6 +270,6 @@ fn main() {
     });
     rep.set("shapes", all.len() as u64);
     rep.finish(&cfg, "exploration",
-        "every Platonic solid; boxes over a corner lattice; Sphere/Torus/Cylinder/Cone/Capsule for EVERY sector and segment count from the minimum up to the tier bound x radii lattice {0.5, 1, 3} x capped/uncapped (cones with zero apex or base radius); radii 1e-4, 1e-3, 0.02, 100, 1e4 on a thinned set of counts; Lathe profiles with full and partial azimuth ranges. Per mesh: valid indices, unit normals, surface equation, vertex normals on the geometric-normal side of every non-degenerate face, one winding sense relative to the outside (outward), and after merging coincident vertices every directed edge exactly once with its reverse and V-E+F = 2 (torus 0) for closed solids / simple boundary rings of the expected size for open ones. non-trivial = mesh passed all applicable checks with >= 1 non-degenerate face.",
+        "every Platonic solid; boxes over a corner lattice; Sphere/Torus/Cylinder/Cone/Capsule for EVERY sector and segment count from the minimum up to the tier bound x radii lattice {0.5, 1, 3} x capped/uncapped (cones with zero apex or base radius); radii 1e-7 .. 1e4 on a thinned set of counts; Lathe profiles (non-unit profile normals) with full and partial azimuth ranges, built through Lathe::new and as struct literals. Per mesh: valid indices, unit normals, surface equation, vertex normals on the geometric-normal side of every non-degenerate face, one winding sense relative to the outside (outward), and after merging coincident vertices every directed edge exactly once with its reverse and V-E+F = 2 (torus 0) for closed solids / simple boundary rings of the expected size for open ones. non-trivial = mesh passed all applicable checks with >= 1 non-degenerate face.",
         &["merge epsilon 1e-4 x mesh size; degenerate = merged corners or area <= 1e-6 size^2", "outside defined per shape family (centre / axis / tube centre); generic Lathe profiles are not judged for outward sense", "partial-azimuth lathes are judged as open shapes"]);
 }
